@@ -3,7 +3,12 @@ EXTENDS OpTable
 \* --- random walks (tlc -simulate): histories of op/3 calls from the initial table, a case per walk ---
 VARIABLE hist
 WInit == tab = Initial /\ depth = 0 /\ probe = NoProbe /\ hist = <<>>
-WNext == /\ \E c \in Calls : /\ tab' = After(tab, c[1], c[2], c[3])
+\* TLC's simulator computes every successor before choosing one; with 1 920 calls per step that is 25 walks a minute. The step
+\* therefore offers one random call: with equal odds one with well-formed arguments or an arbitrary one.
+\* (a product of sub-universes, not a filter over Calls: TLC would re-evaluate the filter at every step)
+OKCalls == { <<"int", 0>>, <<"int", 200>>, <<"int", 1000>>, <<"int", 1001>> } \X { <<"atom", x>> : x \in Specs }
+           \X (El \cup { <<"list", <<e>>, "nil">> : e \in El } \cup { <<"list", <<<<"atom", "a">>, e>>, "nil">> : e \in El })
+WNext == /\ \E c \in {RandomElement(IF RandomElement({0, 1}) = 0 THEN OKCalls ELSE Calls)} : /\ tab' = After(tab, c[1], c[2], c[3])
                                /\ hist' = Append(hist, [p |-> c[1], s |-> c[2], o |-> c[3], errs |-> Errors(tab, c[1], c[2], c[3]), after |-> tab'])
           /\ depth' = depth + 1 /\ UNCHANGED probe
 WSpec == WInit /\ [][WNext]_<<tab, depth, probe, hist>>
